@@ -90,7 +90,7 @@ def run(seed_id, props):
         return 2
     try:
         for p in props:
-            rc, out = sh([os.path.join(VERIF, "check"), p], cwd=VERIF, timeout=3600)
+            rc, out = sh([os.path.join(VERIF, "check"), p], cwd=VERIF, timeout=3600, env=dict(os.environ, VERIF_EVIDENCE_DIR="/root/scratch/evidence_patched"))
             lines = [l for l in out.splitlines() if l.startswith(("VIOLATION", "OK ", "MODEL-ERROR", "INFRA-ERROR", "KNOWN-FINDING"))]
             meta["checks"][p] = {"exit": rc, "lines": lines[:12], "caught": rc == 1 and any(l.startswith("VIOLATION") for l in lines),
                                  "with_failing_input": any(l.startswith("VIOLATION") and "no-failing-input-found" not in l for l in lines)}
